@@ -338,7 +338,11 @@ fn main() -> Result<(), Box<dyn std::error::Error>> {
                     total_clients += client_ping;
 
                     if total_clients == 0 && admin_only {
-                        let _ = exit_tx.send(()).await;
+                        // The exit channel holds one message and this very loop is its only
+                        // reader: if an exit is already pending (the count reached zero twice
+                        // in a row, e.g. the last client left as the signal arrived), waiting
+                        // for room here would block the loop for good.
+                        let _ = exit_tx.try_send(());
                     }
                 }
             }
